@@ -753,7 +753,7 @@ impl Compiler {
 
         // Collect case targets
         let mut case_jumps: Vec<super::JumpPlaceholder> = Vec::new();
-        let mut default_jump: Option<super::JumpPlaceholder> = None;
+        let mut has_default = false;
 
         // First pass: emit comparison and jumps
         for case in switch_stmt.cases.iter() {
@@ -776,16 +776,17 @@ impl Compiler {
                 self.builder.free_register(cmp_reg);
                 self.builder.free_register(test_reg);
             } else {
-                // Default case - save for later
-                default_jump = Some(self.builder.emit_jump());
+                // Default case: taken only after every case test has failed,
+                // wherever the clause stands among the cases
+                has_default = true;
             }
         }
 
-        // Jump to end if no case matched (and no default)
-        let jump_to_end = if default_jump.is_none() {
-            Some(self.builder.emit_jump())
+        // No case matched: jump to the default clause, or to the end
+        let (mut default_jump, jump_to_end) = if has_default {
+            (Some(self.builder.emit_jump()), None)
         } else {
-            None
+            (None, Some(self.builder.emit_jump()))
         };
 
         // Second pass: emit case bodies
